@@ -195,10 +195,10 @@ CHECKS.update({
     ),
     "C14": dict(
         category="exploration",
-        technique="exhaustive pairwise comparison over a constructor-closed universe of ~2000 types and all harness query keys on the real STABLE_TYPE_ID / QueryID computation; digests compared across 3 processes; engine aliasing probe",
-        text=("STABLE_TYPE_ID of every type of a constructor-closed universe (29 base types, 34 unary constructors incl. arrays of length 0-3, slices, "
-              "references, raw pointers, smart pointers, cells, ranges, collections, PhantomData and derived generics, 6 binary constructors over "
-              "all ordered pairs of 8 bases, 3-tuples in every order, nestings and re-associations to depth 2) are pairwise distinct; the QueryIDs of "
+        technique="exhaustive pairwise comparison over a constructor-closed universe of ~5800 types (every hand-written Identifiable impl occurs) and all harness query keys on the real STABLE_TYPE_ID / QueryID computation; digests compared across 3 processes; engine aliasing probe",
+        text=("STABLE_TYPE_ID of every type of a constructor-closed universe (71 nullary types, 60 unary constructors over every sized nullary type incl. arrays of length 0-3, slices, "
+              "references, raw pointers, smart pointers, cells, ranges, collections, PhantomData, derived generics and the types a set / option / wrapper could be defined as, 7 binary constructors over "
+              "all ordered pairs of 8 bases, tuples of every arity 1-16 with one deviating position each, array lengths around 2^8/2^16/2^32, 3-tuples in every order, nestings and re-associations to depth 2) are pairwise distinct; the QueryIDs of "
               "all 1280 harness query keys are pairwise distinct; an engine populated with 5 query types x 40 keys answers each with its own value; "
               "the digest of all ids is identical in three separate processes."),
         design_ref="DESIGN.md 4/C14",
